@@ -246,6 +246,9 @@ func parent(args []string) {
 		case core.Inconclusive:
 			a.Inconclusive++
 			inconclusive++
+			if inconclusive <= 3 {
+				fmt.Fprintf(os.Stderr, "  inconclusive [%s/%d]: %s\n", r.Family, r.Index, r.Reason)
+			}
 			reason := r.Reason
 			if len(reason) > 80 {
 				reason = reason[:80]
@@ -422,9 +425,9 @@ func runBatch(self string, p *core.Property, tier string, seed uint64, b batch, 
 		if err != nil {
 			return results, append(errs, err.Error())
 		}
-		limit := 900
+		limit := 240
 		if tier == "thorough" {
-			limit = 2400
+			limit = 900
 		}
 		args := []string{"-s", "QUIT", "-k", "20", strconv.Itoa(limit), self, "child", "-prop", p.ID, "-tier", tier, "-seed", strconv.FormatUint(seed, 10),
 			"-family", b.fam, "-from", strconv.Itoa(from), "-to", strconv.Itoa(b.to), "-out", out}
@@ -527,7 +530,7 @@ func lastLines(s string, n int) string {
 	return strings.Join(ls, " | ")
 }
 
-var libFnRe = regexp.MustCompile(`github\.com/joeycumines/go-bigbuff\.([^\s(]+(?:\([^)]*\))?[^\s(]*)\(`)
+var libFnRe = regexp.MustCompile(`github\.com/joeycumines/go-bigbuff\.((?:\(\*?\w+(?:\[[^\]]*\])?\)\.)?[\w.\[\]]+)`)
 
 // classifyCrash decides whether a crashed child died in (or because of) the library.
 func classifyCrash(log string) (lib bool, head, fn string) {
